@@ -135,26 +135,49 @@ def r4_dispatch(ck, cx):
         data = h.params[1]
         keyed = sliced = 0
         exc_ok = None
+        def fold(x):
+            v = cx.ce.try_ev(x, h.mod, d, default=None)
+            return v if isinstance(v, int) and not isinstance(v, bool) else None
+        first_byte = ('byte2int(%s[0])' % data, '%s[0]' % data)
         for p in cx.enum(h, d, max_depth=0):
             annotate(p, heap=False)
             for ev in p.ev:
-                if ev.kind == 'call' and callee_name(ev.node) == 'get' and '__lookup' in U(ev.node.func):
-                    a = ev._sub.args[0] if ev._sub.args else None
+                sub = getattr(ev, '_sub', None)
+                if sub is None or ev.kind not in ('call', 'cond', 'assign', 'return'):
+                    continue
+                # every consultation of the function table -- .get(k), [k], `k in table` -- uses the first PDU byte as the key
+                keys = []
+                for x in ast.walk(sub):
+                    if isinstance(x, ast.Call) and callee_name(x) == 'get' and isinstance(x.func, ast.Attribute) and U(x.func.value).endswith('__lookup') and x.args:
+                        keys.append(x.args[0])
+                    elif isinstance(x, ast.Subscript) and U(x.value).endswith('__lookup') and isinstance(x.ctx, ast.Load):
+                        keys.append(x.slice)
+                    elif isinstance(x, ast.Compare) and len(x.ops) == 1 and isinstance(x.ops[0], (ast.In, ast.NotIn)) and U(x.comparators[0]).endswith('__lookup'):
+                        keys.append(x.left)
+                for a in keys:
                     keyed += 1
-                    ck.ob('R4', h.qn, 'class looked up by the first PDU byte', a is not None and U(a) in ('byte2int(%s[0])' % data, '%s[0]' % data),
-                          detail='lookup-key %s' % (U(a) if a is not None else None), loc=cx.floc(h, ev.node))
-                if ev.kind == 'call' and callee_name(ev.node) == 'decode' and isinstance(ev.node.func, ast.Attribute) and U(ev.node.func.value) in ('request', 'response'):
-                    a = ev._sub.args[0] if ev._sub.args else None
+                    ck.ob('R4', h.qn, 'class looked up by the first PDU byte', U(a) in first_byte,
+                          detail='lookup-key %s' % U(a), loc=cx.floc(h, ev.node))
+                if ev.kind == 'call' and callee_name(ev.node) == 'decode' and isinstance(ev.node.func, ast.Attribute) and sub.args \
+                        and not U(ev.node.func.value).endswith('decoder') and data in [n_.id for n_ in ast.walk(sub.args[0]) if isinstance(n_, ast.Name)]:
+                    a = sub.args[0]
                     sliced += 1
-                    ck.ob('R4', h.qn, 'decode() receives the PDU without the function code byte', a is not None and U(a) == '%s[1:]' % data,
-                          detail='decode-arg %s' % (U(a) if a is not None else None), loc=cx.floc(h, ev.node))
+                    ck.ob('R4', h.qn, 'decode() receives the PDU without the function code byte', U(a) == '%s[1:]' % data,
+                          detail='decode-arg %s' % U(a), loc=cx.floc(h, ev.node))
             if dn == 'ClientDecoder':
                 for ev in p.ev:
-                    if ev.kind == 'assign' and isinstance(ev._sub, ast.Call) and callee_name(ev._sub) == 'ExceptionResponse':
-                        conds = [(U(c._sub), c.a) for c in p.ev if c.kind == 'cond']
-                        gate = any(('> 128' in t.replace('0x80', '128') or '>= 129' in t) and pol for t, pol in conds)
+                    if ev.kind == 'assign' and isinstance(getattr(ev, '_sub', None), ast.Call) and callee_name(ev._sub) == 'ExceptionResponse':
+                        gate = False
+                        for c in p.ev:
+                            t = getattr(c, '_sub', None)
+                            if c.kind == 'cond' and isinstance(t, ast.Compare) and len(t.ops) == 1 and U(t.left) in first_byte:
+                                lim = fold(t.comparators[0])
+                                if (isinstance(t.ops[0], ast.Gt) and lim == 0x80 and c.a is True) or (isinstance(t.ops[0], ast.GtE) and lim == 0x81 and c.a is True) \
+                                        or (isinstance(t.ops[0], ast.LtE) and lim == 0x80 and c.a is False) or (isinstance(t.ops[0], ast.Lt) and lim == 0x81 and c.a is False):
+                                    gate = True
                         a0 = ev._sub.args[0] if ev._sub.args else None
-                        masked = a0 is not None and U(a0).replace(' ', '') in ('byte2int(%s[0])&127' % data, '%s[0]&127' % data)
+                        masked = isinstance(a0, ast.BinOp) and isinstance(a0.op, ast.BitAnd) and (
+                            (U(a0.left) in first_byte and fold(a0.right) == 0x7f) or (U(a0.right) in first_byte and fold(a0.left) == 0x7f))
                         exc_ok = bool(gate and masked)
         # sub-function dispatch: reached for every decoded message that has a sub_function_code, including 0
         _, stab = table(cx, dn, '__sub_function_table')
@@ -361,27 +384,62 @@ def _per_key_fresh(v):
 def r9_sub_tables_distinct(ck, cx, rule='R9'):
     """The decoders keep one inner table {sub-function code: class} per function code and fill them with
     `self.__sub_lookup[fc][sub] = cls`.  If two function codes share one inner dict object, every sub-function class is dispatched
-    under every function code (0x2B/0x00 decodes as a diagnostic, 0x08/0x0E as device identification)."""
+    under every function code (0x2B/0x00 decodes as a diagnostic, 0x08/0x0E as device identification).
+    Decided per method: the table may be built in place or in a local that is then stored (aliases are followed both ways); the value
+    of a whole-table assignment must give every key its own inner container, and every depth-1 store `table[fc] = V` must store a
+    container that is created by that very statement (a display / constructor call, not a name bound elsewhere)."""
     ck.rule(rule, 'the decoders build a separate inner sub-function table for every function code (no dict.fromkeys / shared object as the per-key value)')
     n = 0
+
+    def is_tab(x):
+        return isinstance(x, ast.Attribute) and x.attr.endswith('__sub_lookup')
     for dn in ('ServerDecoder', 'ClientDecoder'):
         d = cx.idx.cls('pymodbus.factory.' + dn)
         for fn in d.methods.values():
+            # local aliases of the table: `self.__sub_lookup = L`, `L = self.__sub_lookup`
+            alias, binds = set(), {}
             for node in ast.walk(fn.node):
-                val, what = None, None
                 if isinstance(node, ast.Assign):
                     for t in node.targets:
-                        if isinstance(t, ast.Attribute) and t.attr.endswith('__sub_lookup'):
+                        if isinstance(t, ast.Name):
+                            binds.setdefault(t.id, []).append(node.value)
+                            if is_tab(node.value):
+                                alias.add(t.id)
+                        if is_tab(t) and isinstance(node.value, ast.Name):
+                            alias.add(node.value.id)
+
+            def table(x):
+                return is_tab(x) or (isinstance(x, ast.Name) and x.id in alias)
+
+            def fresh_here(v):
+                """is the stored value a container created by the storing statement itself?"""
+                if _fresh_container(v):
+                    return True
+                if isinstance(v, ast.Name):
+                    return False if any(_fresh_container(b) for b in binds.get(v.id, [])) else None
+                return None
+            for node in ast.walk(fn.node):
+                val, what, ok = None, None, None
+                if isinstance(node, ast.Assign):
+                    for t in node.targets:
+                        if is_tab(t) or (isinstance(t, ast.Name) and t.id in alias and not is_tab(node.value)):
                             val, what = node.value, 'whole'
-                        elif isinstance(t, ast.Subscript) and isinstance(t.value, ast.Attribute) and t.value.attr.endswith('__sub_lookup'):
+                            if isinstance(val, ast.Name) and val.id in alias:
+                                val = None      # `self.__sub_lookup = local`: the local's own binding is examined instead
+                                break
+                            ok = _per_key_fresh(val)
+                            if ok is None and _fresh_container(val) and isinstance(val, (ast.Dict, ast.Call)) and not getattr(val, 'keys', None) and not getattr(val, 'args', None):
+                                ok = True       # an empty table: its entries come from the depth-1 stores below
+                        elif isinstance(t, ast.Subscript) and table(t.value):
                             val, what = node.value, 'inner'
+                            ok = fresh_here(val)
                 elif isinstance(node, ast.Call) and isinstance(node.func, ast.Attribute) and node.func.attr == 'setdefault' \
-                        and isinstance(node.func.value, ast.Attribute) and node.func.value.attr.endswith('__sub_lookup') and len(node.args) == 2:
+                        and table(node.func.value) and len(node.args) == 2:
                     val, what = node.args[1], 'inner'
+                    ok = fresh_here(val)
                 if val is None:
                     continue
                 n += 1
-                ok = _per_key_fresh(val) if what == 'whole' else (True if _fresh_container(val) else None)
                 ck.saw('functions', fn.qn)
                 ck.ob(rule, fn.qn, 'the %s value `%s` gives each function code an inner table of its own' % (what, U(val)[:60]), ok is True,
                       detail='sub-table-%s %s' % ('shared' if ok is False else 'not-recognised', what), loc=cx.floc(fn, node),
